@@ -59,7 +59,11 @@ func NewMultiHandler(create StartFunc, sessionID []byte) (*MultiHandler, error) 
 		messages:        newQueue(r.OtherPartyIDs(), r.FinalRoundNumber()),
 		broadcast:       newQueue(r.OtherPartyIDs(), r.FinalRoundNumber()),
 		broadcastHashes: map[round.Number][]byte{},
-		out:             make(chan *Message, 2*r.N()),
+		// room for every message of the session (at most N per round, plus an abort
+		// notice): finalize may run several rounds in one call - all of them inside
+		// this constructor for a single-party session - and must never block on
+		// a channel nobody is draining yet
+		out: make(chan *Message, (int(r.FinalRoundNumber())+1)*r.N()),
 	}
 	h.finalize()
 	return h, nil
